@@ -183,22 +183,28 @@ def check_serial(config, exp, events, req_id=None):
         last[k] = (gseq, kind)
         if kind == "rs" and k not in first_rs:
             first_rs[k] = gseq
+    # every event (resolver, hook, middleware) under an earlier root precedes
+    # the first *resolver invocation* under a later root
+    rs_under = {}
+    for gseq, _vt, _actor, kind, path, payload in events:
+        if kind == "rs" and path:
+            if req_id is not None:
+                rid = payload[1] if isinstance(payload, tuple) else payload
+                if rid != req_id:
+                    continue
+            rs_under.setdefault(path[0], gseq)
     keys = [k for k in exp.root_keys]
     for i in range(len(keys)):
         for j in range(i + 1, len(keys)):
             ki, kj = keys[i], keys[j]
-            if ki not in last or kj not in first:
+            if ki not in last or kj not in rs_under:
                 continue
-            if last[ki][0] > first[kj][0]:
-                what = "resolver-start" if (
-                    kj in first_rs and first_rs[kj] < last[ki][0]
-                ) else "hook"
+            if last[ki][0] > rs_under[kj]:
                 out.append(Violation(
-                    ("C09",), "serial_order", (config, what),
-                    "root %r still active (last event %s@%d) when root %r "
-                    "started (%s@%d)" % (ki, last[ki][1], last[ki][0], kj,
-                                         first[kj][1], first[kj][0]),
-                ))
+                    ("C09",), "serial_order", (config, "resolver-start"),
+                    "root %r still active (last event %s@%d) when a resolver "
+                    "under root %r was invoked (@%d)" % (
+                        ki, last[ki][1], last[ki][0], kj, rs_under[kj])))
                 return out
     invoked_roots = [p[0] for p in exp.invoked if len(p) == 1]
     for k in invoked_roots:
@@ -422,8 +428,31 @@ def check_hooks(config, outcome_class, exp, events, tags, mw_tags,
                 continue
             mw.setdefault(path, []).append((gseq, kind, tag))
 
+    # ---- partial stack members see exactly what R0 sees of their hooks ---
+    if tags and not crashed:
+        ref = sorted((k, repr(p)) for _, k, p in per_tag.get(tags[0], []))
+        for tag in tags[1:]:
+            if tag[0] == "R":
+                continue
+            edge = "_start" if tag[0] == "S" else "_end"
+            want = [x for x in ref if x[0].endswith(edge)]
+            got = sorted((k, repr(p)) for _, k, p in per_tag[tag])
+            if got != want:
+                missing = [x for x in want if x not in got]
+                extra = [x for x in got if x not in want]
+                out.append(Violation(
+                    props, "multi_order",
+                    ("partial-member", "missing" if missing else "extra"),
+                    "stack member %s (implements only *%s hooks) saw %d hooks"
+                    ", the full recorder %d; first difference %r" % (
+                        tag, edge, len(got), len(want),
+                        (missing or extra)[0])))
+                break
+
     # ---- stage hooks: balanced, nested, at most once, end after start ----
     for tag in tags:
+        if tag[0] != "R":
+            continue
         hist = [(k, p) for _, k, p in per_tag[tag] if p is None]
         stack = []
         seen = {}
@@ -484,7 +513,10 @@ def check_hooks(config, outcome_class, exp, events, tags, mw_tags,
         for gseq, kind, path, tag in all_hooks:
             order.setdefault((kind, path), []).append(tag)
         for (kind, path), got in order.items():
-            want = list(tags) if kind.endswith("_start") else list(tags)[::-1]
+            if kind.endswith("_start"):
+                want = [t for t in tags if t[0] in "RS"]
+            else:
+                want = [t for t in tags if t[0] in "RE"][::-1]
             if got != want:
                 out.append(Violation(
                     props, "multi_order", (kind,),
